@@ -1,4 +1,4 @@
-package cross_chain_manager
+package ripple
 
 // Shared support for native-contract harnesses (copied into each harness package by bin/gen-shared).
 // Nothing here is under test: it builds the state a native contract runs against, using the
